@@ -102,11 +102,11 @@ FAMILIES = {
     "C11": ["op"],
     "C12": ["op"],
     "C13": ["op"],
-    "C16": ["op", "timedextra"],
+    "C16": ["op", "timedextra", "grouping"],
     "C17": ["op", "seqlemma", "timedextra"],
     "C28": ["vts"],
     "C29": ["vts"],
-    "C25": ["monitor"],
+    "C25": ["monitor", "scheddisp"],
     "C26": ["monitor"],
     "C27": ["monitor"],
     "C39": ["forward"],
@@ -138,6 +138,8 @@ def units_for(prop, tier):
         us.append({"runner": "timedextra", "prop": prop, "id": f"timed-operators-not-under-contract/{prop}"})
     if "grouping" in fams:
         us.append({"runner": "grouping", "prop": prop, "id": f"grouping-wiring/{prop}"})
+    if "scheddisp" in fams:
+        us.append({"runner": "scheddisp", "prop": prop, "id": "reactivex/disposable/scheduleddisposable.py::ScheduledDisposable"})
     if "toggle" in fams:
         us.append({"runner": "toggle", "prop": prop, "id": "toggle-windows/C18"})
     if "marble" in fams:
